@@ -221,15 +221,46 @@ def analyse(repo, outdir, cc, opt, with_print, problems):
                 "worst_entry": max(entries, key=lambda e: worst[e]) if entries else None})
     return res
 
+MACRO_PROBE = r"""
+#include "binson_light.h"
+extern void use(binson_parser *);
+/* the public definition macros that promise an AUTOMATIC parser must not create static storage in the caller */
+void probe_def(void) { BINSON_PARSER_DEF(p); use(&p); }
+void probe_def_depth(void) { BINSON_PARSER_DEF_DEPTH(q, 3); use(&q); }
+void probe_init_macro(void) { binson_parser r = BINSON_PARSER(4); use(&r); }
+"""
+
+def macro_probe(repo, outdir, problems):
+    d = os.path.join(outdir, "cg_macro_probe")
+    os.makedirs(d, exist_ok=True)
+    src = os.path.join(d, "probe.c")
+    open(src, "w").write(MACRO_PROBE)
+    res = []
+    for cc in ("gcc", "clang"):
+        obj = os.path.join(d, "probe_%s.o" % cc)
+        r = run([cc, "-std=c99", "-O1", "-I" + os.path.join(repo, "include"), "-DBINSON_PARSER_WITH_PRINT", "-c", src, "-o", obj])
+        if r.returncode != 0:
+            problems.append("macro probe: compile failed with %s: %s" % (cc, r.stderr[:300])); continue
+        bad = []
+        for l in run(["nm", obj]).stdout.splitlines():
+            f = l.split()
+            if len(f) == 3 and f[1] in "bBdDCgGsS":
+                bad.append("%s(%s)" % (f[2], f[1]))
+        for b in bad:
+            problems.append("macro probe (%s): a parser defined with BINSON_PARSER_DEF / BINSON_PARSER_DEF_DEPTH / BINSON_PARSER() inside a function has static storage: %s" % (cc, b))
+        res.append("%s:%d" % (cc, len(bad)))
+    return res
+
 def main():
     repo, outdir = sys.argv[1], sys.argv[2]
     problems, results = [], []
+    probe = macro_probe(repo, outdir, problems)
     for cc in ("gcc", "clang"):
         for opt in ("-O0", "-O2", "-Os"):
             for wp in (True, False):
                 r = analyse(repo, outdir, cc, opt, wp, problems)
                 if r: results.append(r)
-    summary = {"configurations": len(results), "violations": len(problems),
+    summary = {"configurations": len(results), "violations": len(problems), "definition_macro_probe_static_symbols": probe,
                "graphs": [{k: r[k] for k in ("config", "functions", "edges", "edges_searched", "entry_points", "worst_path_stack_bytes", "worst_entry", "address_taken") if k in r} for r in results if "functions" in r],
                "nm_only": [r["config"] for r in results if "functions" not in r]}
     print(json.dumps(summary))
